@@ -170,6 +170,9 @@ func (x *c16) containerCheck(ops []c16Op, e *c16Eval, bound c16Lin, isMap bool, 
 	if loop.Start != 0 || loop.Step != 1 || !loop.Strict {
 		return fmt.Sprintf("element loop is not `for i := 0; i < n; i++` (start %d, step %d, strict-less %v)", loop.Start, loop.Step, loop.Strict)
 	}
+	if loop.Exits != 1 {
+		return fmt.Sprintf("element loop has %d ways out besides running to its bound: it can end before n elements were decoded (a truncated container then decodes without an error)", loop.Exits-1)
+	}
 	if got := e.lin(loop.Bound); !got.eq(bound) {
 		return fmt.Sprintf("element loop bound is %s, expected %s", got, bound)
 	}
